@@ -1477,6 +1477,19 @@ func (c *Ctx) rulesR4qdone() {
 		return
 	}
 	c.check(len(writesOfFieldIn(pw, fDone)) > 0, "C06.qdone", "ProcessWhenQueue records the processed tick", pw.Pos(), "ProcessWhenQueue does not store queueTickDone")
+	// ... on every path: each return is dominated by the comparison with the memo
+	var cmpIns ssa.Instruction
+	for _, rd := range readsOfFieldIn(pw, fDone) {
+		if cmpIns == nil {
+			cmpIns = rd
+		}
+	}
+	if cmpIns != nil {
+		for i, r := range returnsOf(pw) {
+			c.check(dominatesInstr(cmpIns, r), "C06.qdone", "ProcessWhenQueue: return"+nth(i)+" comes after the processed tick was recorded", r.Pos(),
+				"a return of ProcessWhenQueue is reached without updating queueTickDone (e.g. a 'nobody waits' fast path): a subscriber that arrives later for this tick is never told it is done")
+		}
+	}
 	c.check(len(readsOfFieldIn(sw, fDone)) > 0, "C06.qdone", "Subscriptions.WhenQueue consults the processed tick", sw.Pos(), "Subscriptions.WhenQueue does not read queueTickDone: a subscription made after ProcessWhenQueue ran for that tick waits for the next transition")
 }
 
